@@ -123,6 +123,16 @@ C09First ==
                   Chk("C09.result.independent-of-concurrent-first-use", << e.shard, e.day, r[1], r[4] >>, r[2] = r[3]))
                 + Chk("C09.lock.left-held", << "first-use", e.shard >>, e.lockfree = 1))
 
-TraceNext == C09First \/ C09Orders \/ C09Run \/ C09Hist \/ C09Stress \/ C09Race \/ C09Total \/ C09Pure
+\* probes before and after a series of calls that panic on invalid input and are recovered: every probe returns
+\* (within its deadline) and returns what it returned before
+C09Block ==
+  /\ IsEv("C09Block")
+  /\ LET e == Trace[l]
+     IN Consume(SumSeq(e.rows, LAMBDA r :
+                  Chk("C09.blocked-after-a-recovered-panic", << r[1], e.panics >>, r[4] = 0)
+                  + (IF r[4] = 0 THEN Chk("C09.result.independent-of-history", << "after-recovered-panics", r[1], r[2], r[3] >>, r[2] = r[3]) ELSE 0))
+                + Chk("C09.lock.left-held", "after-recovered-panics", e.lockfree = 1))
+
+TraceNext == C09Block \/ C09First \/ C09Orders \/ C09Run \/ C09Hist \/ C09Stress \/ C09Race \/ C09Total \/ C09Pure
 TraceSpec == TraceInit /\ [][TraceNext]_tvars
 =============================================================================
